@@ -177,7 +177,7 @@ def bounded_url_parts(tier, seed):
     failures, n, distinct = [], 0, set()
     fixed = [b"http://a.com/p?#frag", b"http://a.com/%41%42/x?q=%41#f", b"http://%61.com/p", b"http://a.com/../a", b"http://example.com/a//../b", b"http://example.com/a/b?#frag",
              b"http://example.com/page#section?x=1", b"http://update.example.com./x", b"http://example.com/a%2fb?next=%3a%2f", b"http://a.com/./x/../y/.", b"https://john:pw@www.example.com:123/f/?tag=n#top",
-             b"http://@example.com/x", b"http://u:@example.com/x", b"http://:pw@example.com/x", b"http://:@example.com/x", b"http://a@b@example.com/x"]
+             b"http://example.com/a%5b0%5d%5c%5e%60%7b%7c%7d%40%3a/x", b"http://example.com/%5F%2D%2E%7E%41%7a%30/y", b"http://@example.com/x", b"http://u:@example.com/x", b"http://:pw@example.com/x", b"http://:@example.com/x", b"http://a@b@example.com/x"]
     cases = fixed + [gen_url(rng) for _ in range(400 if tier == "quick" else 8000)]
     for text in cases:
         data = b"see " + text + b" now"
